@@ -738,3 +738,67 @@ def _(repo):
             f"Definition gen_val_counter_reset : Z := 0.\nDefinition gen_val_counter_incr (c : Z) : Z := (c + 1).\n"
             f"Definition gen_val_stop (old_counter new_counter patience : Z) (early_stopping : bool) : bool := {stop_cmp} && early_stopping.\n"
             f"Definition gen_validation_wiring : bool := {'true' if (wiring and init_ok) else 'false'}.")
+
+
+# =============================================================== G_boundary (C04)
+BC = "jinns/loss/_boundary_conditions.py"
+LU = "jinns/loss/_loss_utils.py"
+header("G_boundary", ZHDR)
+
+
+def _zlist(node):
+    """literal (nested) list of integers -> Gallina list"""
+    if isinstance(node, ast.List):
+        return "[" + "; ".join(_zlist(e) for e in node.elts) + "]"
+    return zexpr(node, {})
+
+
+@anchor("G_boundary", "normals")
+def _(repo):
+    mod = parse(repo, BC)
+    out = []
+    for fn, arr in (("boundary_neumann_statio", "border_batch"), ("boundary_neumann_nonstatio", "omega_border_batch")):
+        f = find_func(mod, fn)
+        iff = one([s for s in f.body if isinstance(s, ast.If) and ast.unparse(s.test) == f"{arr}.shape[-1] == 1"], "dimension test in " + fn)
+        n1 = one(assigns(wrap(iff.body), "n"), "1-D normals")
+        n2 = one(assigns(wrap(iff.orelse), "n"), "2-D normals")
+        if ast.unparse(n1.func) != "jnp.array" or ast.unparse(n2.func) != "jnp.array":
+            raise Untranslatable("normals are not literal arrays")
+        tag = "statio" if fn.endswith("_statio") else "nonstatio"
+        out.append(f"Definition gen_normal_1d_{tag} : list Z := {_zlist(n1.args[0])}.")
+        out.append(f"Definition gen_normal_2d_{tag} : list (list Z) := {_zlist(n2.args[0])}.")
+        src = ast.unparse(f)
+        argn = "grad(u_, 0)(dx, params)" if tag == "statio" else "grad(u_, 1)(t, dx, params)"
+        ok = (f"jnp.dot({argn}, n[..., facet])" in src and "jnp.atleast_1d(" in src
+              and ("border_batch = border_batch[..., facet]" in src if tag == "statio" else
+                   "times_batch = batch.times_x_border_batch[:, 0:1, facet]" in src and "omega_border_batch = batch.times_x_border_batch[:, 1:, facet]" in src))
+        out.append(f"Definition gen_neumann_wiring_{tag} : bool := {'true' if ok else 'false'}.")
+    return "\n".join(out)
+
+
+@anchor("G_boundary", "facets")
+def _(repo):
+    f = find_func(parse(repo, LU), "boundary_condition_apply")
+    trees = [v for v in assigns(f, "facet_tree") if isinstance(v, ast.Dict)]
+    if len(trees) != 2:
+        raise Untranslatable("expected the 1-D and the 2-D facet_tree")
+    out = []
+    for tag, t in zip(("1d", "2d"), trees):
+        keys = [k.value for k in t.keys]
+        vals = [zexpr(v, {}) for v in t.values]
+        out.append(f"(* {dict(zip(keys, vals))} *)")
+        names = {"xmin": 0, "xmax": 1, "ymin": 2, "ymax": 3}
+        if any(k not in names for k in keys):
+            raise Untranslatable("unknown facet names")
+        out.append(f"Definition gen_facet_tree_{tag} : list (Z * Z) := [" + "; ".join(f"({names[k]}, {v})" for k, v in zip(keys, vals)) + "].")
+    src = ast.unparse(f)
+    ok = ("None if c is None else jnp.mean(loss_weight * _compute_boundary_loss(c, f, batch, u, params, fa, d))" in src
+          and "facet_tuple = tuple((f for f in range(batch.border_batch.shape[-1])))" in src
+          and "jax.tree_util.tree_reduce(lambda x, y: x + y, jax.tree_util.tree_leaves(b_losses_by_facet))" in src)
+    out.append(f"Definition gen_boundary_apply_wiring : bool := {'true' if ok else 'false'}.")
+    d = find_func(parse(repo, BC), "boundary_dirichlet_statio")
+    dn = find_func(parse(repo, BC), "boundary_dirichlet_nonstatio")
+    ok2 = ("lambda dx, params: u(dx, params)[dim_to_apply] - f(dx)" in ast.unparse(d) and "border_batch = border_batch[..., facet]" in ast.unparse(d)
+           and "lambda t, dx, params: u(t, dx, params)[dim_to_apply] - f(t, dx)" in ast.unparse(dn))
+    out.append(f"Definition gen_dirichlet_wiring : bool := {'true' if ok2 else 'false'}.")
+    return "\n".join(out)
